@@ -19,17 +19,16 @@ mod stats;
 
 use arrow::array::{Array, ArrayRef, BooleanArray, RecordBatch};
 use datafusion_common::DFSchema;
-use datafusion_common::pruning::PruningStatistics;
 use datafusion_expr::execution_props::ExecutionProps;
 use datafusion_expr::physical_planning_context::PhysicalPlanningContext;
 use datafusion_physical_expr::utils::{Guarantee, LiteralGuarantee};
 use datafusion_physical_expr::{PhysicalExpr, create_physical_expr};
-use datafusion_pruning::PruningPredicateBuilder;
+use datafusion_pruning::{PruningPredicate, PruningPredicateBuilder};
 use mc_core::serde_json::{Value, json};
 use mc_core::{Ctx, Level, rayon::prelude::*, run_check};
-use model::{COLS, P, Row, T, V, atoms, rows_over, schema};
+use model::{COLS, P, Row, T, V, atoms, rows_over, schema, unicode_atoms};
 use serde::{Deserialize, Serialize};
-use stats::{Cont, MyStats, multisets, patterns, prunable, scalar_to_v};
+use stats::{Cont, MyStats, multisets, patterns, prunable, scalar_to_v, set_stats};
 use std::collections::BTreeMap;
 use std::sync::atomic::{AtomicU64, Ordering};
 use std::sync::{Arc, Mutex};
@@ -37,6 +36,9 @@ use std::sync::{Arc, Mutex};
 #[derive(Serialize, Deserialize, Clone, Debug, Hash)]
 struct Case {
     pred: P,
+    /// value-domain variant (0 = default, 1 = strings around the largest code point)
+    #[serde(default)]
+    variant: u8,
     /// `PruningPredicateBuilder::with_max_in_list_size`
     max_in_list: usize,
     /// "custom" = the check's PruningStatistics (with `contained`), "prunable" =
@@ -50,6 +52,7 @@ struct Case {
 }
 
 struct Planned {
+    variant: u8,
     phys: Arc<dyn PhysicalExpr>,
     cols: Vec<usize>,
     rows: Vec<Row>,
@@ -58,13 +61,13 @@ struct Planned {
     disagreements: u64,
 }
 
-fn plan(pred: &P) -> Result<Planned, String> {
+fn plan(pred: &P, variant: u8) -> Result<Planned, String> {
     let sch = schema();
     let df = DFSchema::try_from(sch.clone()).map_err(|e| format!("harness: {e}"))?;
     let phys = create_physical_expr(&pred.expr(), &df, &ExecutionProps::new(), &PhysicalPlanningContext::default())
         .map_err(|e| format!("unplannable: {e}"))?;
     let cols = pred.cols();
-    let rows = rows_over(&cols);
+    let rows = rows_over(&cols, variant);
     let batch = batch_of(&rows)?;
     let real: Vec<Option<bool>> = match phys.evaluate(&batch).and_then(|v| v.into_array(rows.len())) {
         Ok(a) => {
@@ -85,7 +88,7 @@ fn plan(pred: &P) -> Result<Planned, String> {
             mine == Some(true) && *real == Some(true)
         })
         .collect();
-    Ok(Planned { phys, cols, rows, matches, disagreements })
+    Ok(Planned { variant, phys, cols, rows, matches, disagreements })
 }
 
 fn batch_of(rows: &[Row]) -> Result<RecordBatch, String> {
@@ -105,23 +108,37 @@ struct Out {
     pruned: u64,
     kept_with_match: u64,
     prune_err: bool,
-    build_err: bool,
+}
+
+fn build(pl: &Planned, max_in_list: usize) -> Option<PruningPredicate> {
+    PruningPredicateBuilder::new().with_file_schema(Arc::new(schema())).with_max_in_list_size(max_in_list).try_build(Arc::clone(&pl.phys)).ok()
+}
+
+/// The distinct containers of one predicate with their exact statistics and,
+/// per container, a row on which the predicate is TRUE (if any).
+struct Sets {
+    sets: Vec<Vec<Row>>,
+    stats: Vec<Vec<stats::ColStat>>,
+    lens: Vec<usize>,
+    matching: Vec<Option<Row>>,
+}
+
+fn sets_of(pl: &Planned, sets: Vec<Vec<Row>>) -> Sets {
+    let matching = sets
+        .iter()
+        .map(|rows| rows.iter().find(|r| pl.rows.iter().position(|x| x == *r).map(|i| pl.matches[i]).unwrap_or(false)).cloned())
+        .collect();
+    Sets { stats: set_stats(&pl.cols, &sets), lens: sets.iter().map(|s| s.len()).collect(), matching, sets }
 }
 
 /// Run one `prune` call; `Err((k, what))` names the first container that was
 /// skipped although a row of it satisfies the predicate.
-fn run_prune(pl: &Planned, pred: &P, max_in_list: usize, route: &str, whole_absent: u32, conts: &[Cont]) -> Result<Out, (usize, String)> {
+#[allow(clippy::too_many_arguments)]
+fn run_prune(pl: &Planned, pp: &PruningPredicate, pred: &P, max_in_list: usize, route: &str, whole_absent: u32, st: &Sets, entries: &[(usize, u32)]) -> Result<Out, (usize, String)> {
     let mut out = Out::default();
-    let pp = match PruningPredicateBuilder::new().with_file_schema(Arc::new(schema())).with_max_in_list_size(max_in_list).try_build(Arc::clone(&pl.phys)) {
-        Ok(p) => p,
-        Err(_) => {
-            out.build_err = true;
-            return Ok(out);
-        }
-    };
     let res = match route {
-        "custom" => pp.prune(&MyStats::new(&pl.cols, conts.to_vec(), whole_absent)),
-        "prunable" => pp.prune(&prunable(&pl.cols, conts)),
+        "custom" => pp.prune(&MyStats { cols: &pl.cols, entries, stats: &st.stats, set_len: &st.lens, whole_absent }),
+        "prunable" => pp.prune(&prunable(&pl.cols, &st.sets, entries)),
         _ => return Err((0, format!("harness: unknown route {route}"))),
     };
     let res = match res {
@@ -131,15 +148,12 @@ fn run_prune(pl: &Planned, pred: &P, max_in_list: usize, route: &str, whole_abse
             return Ok(out);
         }
     };
-    if res.len() != conts.len() {
-        return Err((0, format!("prune returned {} verdicts for {} containers", res.len(), conts.len())));
+    if res.len() != entries.len() {
+        return Err((0, format!("prune returned {} verdicts for {} containers", res.len(), entries.len())));
     }
     for (k, keep) in res.iter().enumerate() {
         out.verdicts += 1;
-        let matching = conts[k].rows.iter().find(|r| {
-            let idx = pl.rows.iter().position(|x| x == *r);
-            idx.map(|i| pl.matches[i]).unwrap_or(false)
-        });
+        let matching = &st.matching[entries[k].0];
         if !*keep {
             out.pruned += 1;
             if let Some(r) = matching {
@@ -148,9 +162,9 @@ fn run_prune(pl: &Planned, pred: &P, max_in_list: usize, route: &str, whole_abse
                     format!(
                         "predicate {} [max_in_list_size={max_in_list}, statistics via {route}]: container {} with known statistics {} was skipped (prune()[{k}] == false, {} containers in the call) but its row {} satisfies the predicate",
                         pred.show(),
-                        show_rows(&conts[k].rows, &pl.cols),
-                        show_pat(&pl.cols, conts[k].pat, whole_absent),
-                        conts.len(),
+                        show_rows(&st.sets[entries[k].0], &pl.cols),
+                        show_pat(&pl.cols, entries[k].1, whole_absent),
+                        entries.len(),
                         show_row(r, &pl.cols)
                     ),
                 ));
@@ -241,12 +255,15 @@ fn run_guarantees(pl: &Planned, pred: &P) -> Result<(u64, u64), String> {
 }
 
 fn run_case(c: &Case) -> Result<Out, String> {
-    let pl = plan(&c.pred)?;
+    let pl = plan(&c.pred, c.variant)?;
     if c.route == "guarantee" {
         run_guarantees(&pl, &c.pred)?;
         return Ok(Out::default());
     }
-    run_prune(&pl, &c.pred, c.max_in_list, &c.route, c.whole_absent, &c.containers).map_err(|(_, w)| w)
+    let Some(pp) = build(&pl, c.max_in_list) else { return Ok(Out::default()) };
+    let st = sets_of(&pl, c.containers.iter().map(|k| k.rows.clone()).collect());
+    let entries: Vec<(usize, u32)> = c.containers.iter().enumerate().map(|(k, c)| (k, c.pat)).collect();
+    run_prune(&pl, &pp, &c.pred, c.max_in_list, &c.route, c.whole_absent, &st, &entries).map_err(|(_, w)| w)
 }
 
 /// The predicate with literals abstracted away: the grouping key of violations.
@@ -317,7 +334,6 @@ impl<'a> Tally<'a> {
         self.verdicts.fetch_add(o.verdicts, Ordering::Relaxed);
         self.pruned.fetch_add(o.pruned, Ordering::Relaxed);
         self.kept_with_match.fetch_add(o.kept_with_match, Ordering::Relaxed);
-        self.build_err.fetch_add(o.build_err as u64, Ordering::Relaxed);
         self.prune_err.fetch_add(o.prune_err as u64, Ordering::Relaxed);
         self.ctx.evals(o.verdicts.max(1));
     }
@@ -326,8 +342,9 @@ impl<'a> Tally<'a> {
 /// One batched call; on a violation, first try to reproduce it with the single
 /// offending container (smallest replay), otherwise keep the whole call.
 #[allow(clippy::too_many_arguments)]
-fn call(t: &Tally, pl: &Planned, pred: &P, max_in_list: usize, route: &str, whole_absent: u32, conts: Vec<Cont>) -> Out {
-    match mc_core::catch(|| run_prune(pl, pred, max_in_list, route, whole_absent, &conts)) {
+fn call(t: &Tally, pl: &Planned, pp: &PruningPredicate, pred: &P, max_in_list: usize, route: &str, whole_absent: u32, st: &Sets, entries: &[(usize, u32)]) -> Out {
+    let to_conts = |es: &[(usize, u32)]| es.iter().map(|e| Cont { rows: st.sets[e.0].clone(), pat: e.1 }).collect::<Vec<_>>();
+    match mc_core::catch(|| run_prune(pl, pp, pred, max_in_list, route, whole_absent, st, entries)) {
         Ok(Ok(o)) => {
             t.add(&o);
             o
@@ -337,56 +354,97 @@ fn call(t: &Tally, pl: &Planned, pred: &P, max_in_list: usize, route: &str, whol
                 t.ctx.machinery_error(what);
                 return Out::default();
             }
-            let single = vec![conts[k].clone()];
-            let (containers, what) = match mc_core::catch(|| run_prune(pl, pred, max_in_list, route, whole_absent, &single)) {
-                Ok(Err((_, w))) => (single, w),
-                _ => (conts.clone(), what),
+            let single = [entries[k]];
+            let (containers, what) = match mc_core::catch(|| run_prune(pl, pp, pred, max_in_list, route, whole_absent, st, &single)) {
+                Ok(Err((_, w))) => (to_conts(&single), w),
+                _ => (to_conts(entries), what),
             };
-            let case = Case { pred: pred.clone(), max_in_list, route: route.to_string(), whole_absent, containers };
+            let case = Case { pred: pred.clone(), variant: pl.variant, max_in_list, route: route.to_string(), whole_absent, containers };
             t.fail(format!("prune[{route}]: {}", skeleton(pred)), &case, what);
             Out { pruned: 1, ..Default::default() }
         }
         Err(panic) => {
-            let case = Case { pred: pred.clone(), max_in_list, route: route.to_string(), whole_absent, containers: conts.clone() };
+            let case = Case { pred: pred.clone(), variant: pl.variant, max_in_list, route: route.to_string(), whole_absent, containers: to_conts(entries) };
             t.fail(format!("prune[{route}] panics: {}", skeleton(pred)), &case, panic);
             Out::default()
         }
     }
 }
 
+/// How much of the space one predicate gets.
+#[derive(Clone, Copy)]
+struct Plan {
+    max_rows: usize,
+    /// reduced weakening-pattern set for two-column predicates
+    reduced: bool,
+    /// also: every container alone in its own call; DataFusion's PrunableStatistics route
+    extras: bool,
+}
+
 fn explore(ctx: &Ctx) {
     let th = ctx.thorough();
-    let max_rows = ctx.pick(2, 3);
     let menu = atoms(false);
     let core = atoms(true);
-    // predicates, simplest first
-    let mut preds: Vec<P> = menu.clone();
+    let bx = |p: &P| Box::new(p.clone());
+    // (predicate, plan), simplest first
+    let mut preds: Vec<(P, Plan, u8)> = vec![];
+    let p1 = Plan { max_rows: if th { 3 } else { 2 }, reduced: false, extras: true };
     for a in &menu {
-        preds.push(P::Not(Box::new(a.clone())));
+        preds.push((a.clone(), p1, 0));
+    }
+    for a in &menu {
+        preds.push((P::Not(bx(a)), p1, 0));
+    }
+    // strings around the largest code point: atoms, NOT atom, and pairs among themselves
+    let uni = unicode_atoms();
+    for a in &uni {
+        preds.push((a.clone(), p1, 1));
+        preds.push((P::Not(bx(a)), p1, 1));
     }
     let depth1 = preds.len();
+    // depth 2: all ordered pairs of atoms.
+    let p2 = if th { Plan { max_rows: 2, reduced: false, extras: true } } else { Plan { max_rows: 2, reduced: true, extras: false } };
+    let p2core = if th { Plan { max_rows: 3, reduced: true, extras: false } } else { p2 };
     for a in &menu {
         for b in &menu {
-            preds.push(P::And(Box::new(a.clone()), Box::new(b.clone())));
-            preds.push(P::Or(Box::new(a.clone()), Box::new(b.clone())));
+            let (ca, cb) = (core.contains(a), core.contains(b));
+            for p in [P::And(bx(a), bx(b)), P::Or(bx(a), bx(b))] {
+                preds.push((p.clone(), p2, 0));
+                if th && ca && cb {
+                    preds.push((p, p2core, 0));
+                }
+            }
+        }
+    }
+    for a in &uni {
+        for b in &uni {
+            preds.push((P::And(bx(a), bx(b)), Plan { extras: false, ..p2 }, 1));
+            preds.push((P::Or(bx(a), bx(b)), Plan { extras: false, ..p2 }, 1));
         }
     }
     let depth2 = preds.len();
     for a in &core {
         for b in &core {
-            preds.push(P::Not(Box::new(P::And(Box::new(a.clone()), Box::new(b.clone())))));
-            preds.push(P::Not(Box::new(P::Or(Box::new(a.clone()), Box::new(b.clone())))));
+            preds.push((P::Not(Box::new(P::And(bx(a), bx(b)))), Plan { extras: false, ..p2 }, 0));
+            preds.push((P::Not(Box::new(P::Or(bx(a), bx(b)))), Plan { extras: false, ..p2 }, 0));
         }
     }
+    let mut depth3 = 0;
     if th {
+        let p3 = Plan { max_rows: 2, reduced: true, extras: false };
         for a in &core {
             for b in &core {
                 for c in &core {
-                    let (a, b, c) = (Box::new(a.clone()), Box::new(b.clone()), Box::new(c.clone()));
-                    preds.push(P::And(a.clone(), Box::new(P::Or(b.clone(), c.clone()))));
-                    preds.push(P::Or(a.clone(), Box::new(P::And(b.clone(), c.clone()))));
-                    preds.push(P::And(a.clone(), Box::new(P::And(b.clone(), c.clone()))));
-                    preds.push(P::Or(a, Box::new(P::Or(b, Box::new(P::Not(c))))));
+                    let (a, b, c) = (bx(a), bx(b), bx(c));
+                    for p in [
+                        P::And(a.clone(), Box::new(P::Or(b.clone(), c.clone()))),
+                        P::Or(a.clone(), Box::new(P::And(b.clone(), c.clone()))),
+                        P::And(a.clone(), Box::new(P::And(b.clone(), c.clone()))),
+                        P::Or(a.clone(), Box::new(P::Or(b.clone(), Box::new(P::Not(c.clone()))))),
+                    ] {
+                        preds.push((p, p3, 0));
+                        depth3 += 1;
+                    }
                 }
             }
         }
@@ -394,14 +452,17 @@ fn explore(ctx: &Ctx) {
     ctx.set_extra(
         "bounds",
         json!({
-            "columns": "i: Int64 {NULL,1,2,3}, s: Utf8 {NULL,'a','ab','b'}, j: Int32 {NULL,1,2}, b: Boolean {NULL,false,true}",
+            "columns": "i: Int64 {NULL,1,2,3}, s: Utf8 {NULL,'a','ab','b'}, j: Int32 {NULL,1,2}, b: Boolean {NULL,false,true}; second string domain {NULL,'a','a\\u{10FFFF}','a\\u{10FFFF}z','b','\\u{10FFFF}b'} for the s-only atoms around the largest code point",
+            "unicode_atoms": uni.len(),
             "atoms": menu.len(), "core_atoms": core.len(),
-            "predicates": {"atoms_and_NOT_atom": depth1, "atom AND/OR atom": depth2 - depth1, "NOT(core AND/OR core)": core.len() * core.len() * 2,
-                           "depth_3_over_core_atoms": if th { core.len().pow(3) * 4 } else { 0 }, "total": preds.len()},
-            "container": format!("every multiset of 0..={max_rows} rows over the domains of the columns the predicate references"),
-            "weakening": "every subset of {min, max, null_count, contained} per referenced column and of row_count is known, the rest unknown (per-container NULL in the statistics arrays); for predicates over >= 3 columns the same kind is weakened on all columns together; plus every combination of statistic kinds answered with `None` for the whole call",
-            "calls": "all (container, pattern) pairs of a predicate in one prune() call; additionally every container alone in its own call (full statistics, and `contained` only) for predicates that yield literal guarantees; max_in_list_size in {20, 1} for predicates with IN lists",
-            "prunable_statistics_route": if th { "all predicates of depth <= 2" } else { "atoms and NOT atom" },
+            "predicates": {"atoms_and_NOT_atom": depth1,
+                           "atom AND/OR atom": format!("{} ({})", depth2 - depth1, if th { "all ordered pairs of atoms; pairs of core atoms additionally with 3-row containers" } else { "all ordered pairs of atoms" }),
+                           "NOT(core AND/OR core)": core.len() * core.len() * 2,
+                           "depth_3_over_core_atoms": depth3, "total": preds.len()},
+            "container": format!("every multiset of 0..=n rows over the domains of the columns the predicate references; n = {} for atoms / NOT atom, 2 otherwise{}", p1.max_rows, if th { " (3 for pairs of core atoms)" } else { "" }),
+            "weakening": "every subset of {min, max, null_count, contained} per referenced column and of row_count is known, the rest unknown (per-container NULL in the statistics arrays). Reduced set (two-column predicates where stated): per column 8 of the 16 subsets (all, each single one missing, min/max only, counts+contained only, none) in full product with the other column and the row count. Predicates over >= 3 columns: the same kind is weakened on all columns together. Plus every combination of statistic kinds answered with `None` for the whole call",
+            "reduced_patterns_used_for": if th { "pairs of core atoms with 3-row containers, depth 3" } else { "all predicates of depth 2" },
+            "calls": "all (container, pattern) pairs of a predicate in one prune() call; for atoms / NOT atom (thorough: all of depth <= 2) additionally every container alone in its own call (full statistics, and `contained` only) and the same containers through DataFusion's PrunableStatistics (Exact / Absent / misleading Inexact); max_in_list_size in {20, 1} for predicates with IN lists",
         }),
     );
     ctx.assume("statistics are exact whenever known: min/max over the non-null values in the engine's ordering, exact null and row counts; `contained` follows the documented three-way rule and counts a NULL as 'not one of the values'");
@@ -423,12 +484,12 @@ fn explore(ctx: &Ctx) {
         fails: Mutex::new(BTreeMap::new()),
     };
 
-    preds.par_iter().enumerate().for_each(|(pi, pred)| {
+    preds.par_iter().for_each(|(pred, plan_, variant)| {
         if ctx.out_of_time() {
             return;
         }
         t.predicates.fetch_add(1, Ordering::Relaxed);
-        let pl = match mc_core::catch(|| plan(pred)) {
+        let pl = match mc_core::catch(|| plan(pred, *variant)) {
             Ok(Ok(pl)) => pl,
             Ok(Err(e)) if e.starts_with("unplannable") => {
                 t.unplannable.fetch_add(1, Ordering::Relaxed);
@@ -449,27 +510,34 @@ fn explore(ctx: &Ctx) {
                 n
             }
             Ok(Err(what)) | Err(what) => {
-                let case = Case { pred: pred.clone(), max_in_list: 20, route: "guarantee".into(), whole_absent: 0, containers: vec![] };
+                let case = Case { pred: pred.clone(), variant: pl.variant, max_in_list: 20, route: "guarantee".into(), whole_absent: 0, containers: vec![] };
                 t.fail(format!("LiteralGuarantee::analyze: {}", skeleton(pred)), &case, what);
                 0
             }
         };
         // containers × weakening patterns
-        let ms = multisets(pl.rows.len(), max_rows);
-        let pats = patterns(pl.cols.len());
+        let ms = multisets(pl.rows.len(), plan_.max_rows);
+        let st = sets_of(&pl, ms.iter().map(|m| m.iter().map(|k| pl.rows[*k].clone()).collect()).collect());
+        let pats = patterns(pl.cols.len(), plan_.reduced);
         let full = *pats.first().unwrap();
-        let mut conts = Vec::with_capacity(ms.len() * pats.len());
+        let nsets = st.sets.len();
+        let mut entries: Vec<(usize, u32)> = Vec::with_capacity(nsets * pats.len());
         for pat in &pats {
-            for m in &ms {
-                conts.push(Cont { rows: m.iter().map(|k| pl.rows[*k].clone()).collect(), pat: *pat });
+            for k in 0..nsets {
+                entries.push((k, *pat));
             }
         }
-        let plain: Vec<Cont> = conts[..ms.len()].to_vec();
+        let plain: Vec<(usize, u32)> = entries[..nsets].to_vec();
+        let contained_bits: u32 = (0..pl.cols.len() as u32).map(|c| 1 << (4 * c + stats::CONTAINED)).sum();
         let in_sizes: Vec<usize> = if pred.has_in_list() { vec![20, 1] } else { vec![20] };
         let mut pruned_any = 0u64;
         let mut kept_match = 0u64;
         for &mil in &in_sizes {
-            let o = call(&t, &pl, pred, mil, "custom", 0, conts.clone());
+            let Some(pp) = build(&pl, mil) else {
+                t.build_err.fetch_add(1, Ordering::Relaxed);
+                continue;
+            };
+            let o = call(&t, &pl, &pp, pred, mil, "custom", 0, &st, &entries);
             pruned_any += o.pruned;
             kept_match += o.kept_with_match;
             // whole-method `None` answers, kind by kind (on all referenced columns together) and row count
@@ -485,38 +553,26 @@ fn explore(ctx: &Ctx) {
                 if m & 16 != 0 {
                     wa |= 1 << (4 * pl.cols.len());
                 }
-                pruned_any += call(&t, &pl, pred, mil, "custom", wa, plain.clone()).pruned;
+                pruned_any += call(&t, &pl, &pp, pred, mil, "custom", wa, &st, &plain).pruned;
             }
-            // one container per call (exercises the early return when every container is ruled out by a guarantee)
-            if n_guar > 0 || pi < depth1 {
-                let only_contained: u32 = (0..pl.cols.len() as u32).map(|c| 1 << (4 * c + stats::CONTAINED)).sum();
-                for m in &ms {
-                    let rows: Vec<Row> = m.iter().map(|k| pl.rows[*k].clone()).collect();
-                    for pat in [full, only_contained] {
-                        pruned_any += call(&t, &pl, pred, mil, "custom", 0, vec![Cont { rows: rows.clone(), pat }]).pruned;
+            if plan_.extras {
+                // one container per call (exercises the early return when every container is ruled out by a guarantee)
+                for k in 0..nsets {
+                    for pat in [full, contained_bits] {
+                        pruned_any += call(&t, &pl, &pp, pred, mil, "custom", 0, &st, &[(k, pat)]).pruned;
                     }
                 }
-            }
-            // DataFusion's own provider over `Statistics` (what FilePruner hands to prune)
-            if th && pi < depth2 || pi < depth1 {
-                // `contained` is never answered by this provider: drop that bit from the patterns
-                let mut seen = std::collections::HashSet::new();
-                let pconts: Vec<Cont> = conts
-                    .iter()
-                    .filter(|c| {
-                        let contained_bits: u32 = (0..pl.cols.len() as u32).map(|c| 1 << (4 * c + stats::CONTAINED)).sum();
-                        c.pat & contained_bits == contained_bits && seen.insert((c.rows.clone(), c.pat))
-                    })
-                    .cloned()
-                    .collect();
-                pruned_any += call(&t, &pl, pred, mil, "prunable", 0, pconts).pruned;
+                // DataFusion's own provider over `Statistics` (what FilePruner hands to prune);
+                // it never answers `contained`, so only patterns with those bits set are distinct
+                let pentries: Vec<(usize, u32)> = entries.iter().filter(|e| e.1 & contained_bits == contained_bits).cloned().collect();
+                pruned_any += call(&t, &pl, &pp, pred, mil, "prunable", 0, &st, &pentries).pruned;
             }
         }
         if pruned_any > 0 && kept_match > 0 {
-            ctx.nontrivial(pred);
+            ctx.nontrivial(&(pred, plan_.max_rows, plan_.reduced, variant));
             if ctx.want_sample() && pl.cols.len() == 2 {
                 ctx.sample(json!({"predicate": pred.show(), "columns": pl.cols.iter().map(|c| COLS[*c]).collect::<Vec<_>>(),
-                    "containers": ms.len(), "weakening_patterns": pats.len(), "verdicts_pruned": pruned_any, "kept_with_matching_row": kept_match,
+                    "containers": nsets, "weakening_patterns": pats.len(), "verdicts_skip": pruned_any, "kept_with_matching_row": kept_match,
                     "literal_guarantees": n_guar}));
             }
         }
@@ -533,7 +589,13 @@ fn explore(ctx: &Ctx) {
     ctx.count("prune_returned_err", t.prune_err.load(Ordering::Relaxed));
     ctx.count("literal_guarantees", t.guarantees.load(Ordering::Relaxed));
     ctx.count("literal_guarantee_row_checks", t.guarantee_checks.load(Ordering::Relaxed));
-    for (key, (n, (_, j, what))) in t.fails.into_inner().unwrap() {
+    if t.disagreements.load(Ordering::Relaxed) > 0 {
+        ctx.machinery_error("the check's row evaluator and the real physical expression disagree on some row (see counters): fix the evaluator or report under C33");
+    }
+    // smallest failing case first (only the first 50 classes are written out as replays)
+    let mut fails: Vec<_> = t.fails.into_inner().unwrap().into_iter().collect();
+    fails.sort_by(|a, b| (a.1.1.0, &a.0).cmp(&(b.1.1.0, &b.0)));
+    for (key, (n, (_, j, what))) in fails {
         ctx.count(&format!("failing_cases[{key}]"), n);
         ctx.violation(key, what, serde_json::from_str::<Value>(&j).unwrap());
     }
